@@ -339,8 +339,8 @@ Record pinv (Q : nat -> Prop) (X A F : list nat) (p : plan) : Prop := {
 
 Definition QT : nat -> Prop := fun _ => True.
 
-Lemma pinv_weaken Q Q' X X' A F p :
-  (forall q, Q' q -> Q q) -> (forall x, In x X -> In x X') ->
+Lemma pinv_weaken (Q Q' : nat -> Prop) X X' A F p :
+  (forall q, Q' q -> 0 < depth g q -> Q q) -> (forall x, In x X -> In x X') ->
   (forall x, In x X' -> In x X \/ ~ In x (sched p A F) \/ p_want p x = Some WToFinish) ->
   pinv Q X A F p -> pinv Q' X' A F p.
 Proof.
@@ -349,11 +349,11 @@ Proof.
   - intros e H1 H2. destruct (I4 e H1 H2) as [H|H]; [left; exact H|right; apply HX; exact H].
   - intros e H1 H2. apply HX. apply (I5 e H1 H2).
   - intros x Hx Hs. destruct (HX' x Hx) as [H|[H|H]]; [apply I6; assumption|tauto|exact H].
-  - intros q Hq. apply I12. apply HQ. exact Hq.
+  - intros q Hq Hd. apply I12; [apply HQ; assumption|exact Hd].
 Qed.
 
 (* an exempt edge that does not need the exemption can be dropped from X *)
-Lemma pinv_drop Q d X A F p :
+Lemma pinv_drop (Q : nat -> Prop) d X A F p :
   pinv Q (d :: X) A F p ->
   (p_want p d = Some WToStart -> all_inputs_ready g p d = true -> In d (sched p A F) \/ In d X) ->
   (p_want p d = Some WNothing -> all_inputs_ready g p d = true -> In d X) ->
@@ -375,7 +375,7 @@ Proof.
 Qed.
 
 (* RetrieveReadyEdges keeps the invariant and fills pool q *)
-Lemma retrieve_pinv Q X A F p prio q :
+Lemma retrieve_pinv (Q : nat -> Prop) X A F p prio q :
   pinv Q X A F p -> pinv (fun r => Q r \/ r = q) X A F (retrieve g prio q p).
 Proof.
   intros [I1 I2 I3 I4 I5 I6 I7 I8 I9 I10 I11 I12 I13 I14 I15].
@@ -429,4 +429,547 @@ Proof.
   - rewrite R11. exact I15.
 Qed.
 
-End Inv.
+Lemma retrieve_as_frame prio q p :
+  retrieve g prio q p =
+  frame (retrieve g prio q p) (p_want p) (p_wanted p) (p_commands p) (p_oready p) (p_tokens p).
+Proof. rewrite <- retrieve_frame. rewrite frame_id. reflexivity. Qed.
+
+Lemma retrieve_want prio q p : p_want (retrieve g prio q p) = p_want p.
+Proof. rewrite retrieve_as_frame. reflexivity. Qed.
+Lemma retrieve_oready prio q p : p_oready (retrieve g prio q p) = p_oready p.
+Proof. rewrite retrieve_as_frame. reflexivity. Qed.
+Lemma retrieve_wanted prio q p : p_wanted (retrieve g prio q p) = p_wanted p.
+Proof. rewrite retrieve_as_frame. reflexivity. Qed.
+Lemma retrieve_commands prio q p : p_commands (retrieve g prio q p) = p_commands p.
+Proof. rewrite retrieve_as_frame. reflexivity. Qed.
+Lemma retrieve_tokens prio q p : p_tokens (retrieve g prio q p) = p_tokens p.
+Proof. rewrite retrieve_as_frame. reflexivity. Qed.
+
+Lemma is_wanted_upd_keep w d v :
+  is_wanted w d = is_wanted (upd w d v) d ->
+  forall l, count_if (is_wanted (upd w d v)) l = count_if (is_wanted w) l.
+Proof.
+  intros H l. unfold count_if. f_equal. apply filter_ext. intros x. unfold is_wanted in *.
+  destruct (Nat.eq_dec x d) as [->|Hne]; [symmetry; exact H|]. rewrite upd_other by exact Hne. reflexivity.
+Qed.
+
+Lemma count_if_flip w d v l : NoDup l -> In d l ->
+  is_wanted w d = true -> is_wanted (upd w d v) d = false ->
+  count_if (is_wanted w) l = S (count_if (is_wanted (upd w d v)) l).
+Proof.
+  intros Hnd Hin H1 H2. unfold count_if.
+  induction Hnd as [|x l Hx Hl IH]; [destruct Hin|].
+  cbn [filter]. destruct Hin as [->|Hin].
+  - rewrite H1, H2. cbn [length]. f_equal. f_equal. apply filter_ext_in. intros y Hy.
+    unfold is_wanted. rewrite upd_other; [reflexivity|]. intros ->. exact (Hx Hy).
+  - assert (x <> d) by (intros ->; exact (Hx Hin)).
+    replace (is_wanted (upd w d v) x) with (is_wanted w x) by (unfold is_wanted; rewrite upd_other by assumption; reflexivity).
+    destruct (is_wanted w x); cbn [length]; rewrite (IH Hin); reflexivity.
+Qed.
+
+Lemma all_edges_nodup : NoDup (all_edges g).
+Proof. unfold all_edges. apply seq_NoDup. Qed.
+
+Lemma all_edges_in e : e < n_edges g -> In e (all_edges g).
+Proof. intros H. unfold all_edges. apply in_seq. lia. Qed.
+
+Definition tok (A : list nat) : nat := match c_jobserver cfg with None => 0 | Some _ => length A end.
+
+(* ---- pure update 1: a wanted edge whose inputs are ready is put into ready_ or delayed_ ---- *)
+Lemma pinv_schedule_pure X A F p d (to_ready : bool) :
+  pinv QT (d :: X) A F p -> p_want p d = Some WToStart -> all_inputs_ready g p d = true ->
+  (if to_ready then depth g (pool g d) = 0 else 0 < depth g (pool g d)) ->
+  pinv (fun r => r <> pool g d) X A F
+       (mkPlan (upd (p_want p) d (Some WToFinish))
+               (if to_ready then d :: p_ready p else p_ready p)
+               (if to_ready then p_delayed p else d :: p_delayed p)
+               (p_use p) (p_wanted p) (p_commands p) (p_oready p) (p_tokens p)).
+Proof.
+  intros [I1 I2 I3 I4 I5 I6 I7 I8 I9 I10 I11 I12 I13 I14 I15] Hw Ha Hdep.
+  assert (Hns : ~ In d (sched p A F)).
+  { intros Hin. rewrite (I6 d (or_introl eq_refl) Hin) in Hw. discriminate. }
+  set (p' := mkPlan _ _ _ _ _ _ _ _).
+  assert (Hperm : Permutation (sched p' A F) (d :: sched p A F)).
+  { unfold sched, p'. psimpl. destruct to_ready; [reflexivity|].
+    cbn [app]. symmetry. apply Permutation_middle. }
+  assert (Hair : forall e, all_inputs_ready g p' e = all_inputs_ready g p e) by reflexivity.
+  assert (Hin' : forall x, In x (sched p' A F) <-> x = d \/ In x (sched p A F)).
+  { intros x. split; intros H.
+    - apply (Permutation_in _ Hperm) in H. destruct H as [<-|H]; [left; reflexivity|right; exact H].
+    - apply (Permutation_in _ (Permutation_sym Hperm)). destruct H as [->|H]; [left; reflexivity|right; exact H]. }
+  assert (Hwant : forall x, x <> d -> p_want p' x = p_want p x).
+  { intros x Hx. unfold p'. psimpl. apply upd_other. exact Hx. }
+  assert (Hwd : p_want p' d = Some WToFinish) by (unfold p'; psimpl; apply upd_same).
+  constructor.
+  - apply (Permutation_NoDup (Permutation_sym Hperm)). constructor; assumption.
+  - intros e He. rewrite Hair. apply Hin' in He. destruct He as [->|He].
+    + split; [unfold is_wanted; rewrite Hwd; reflexivity|exact Ha].
+    + destruct (I2 e He) as [H1 H2]. split; [|exact H2].
+      destruct (Nat.eq_dec e d) as [->|Hne]; [unfold is_wanted; rewrite Hwd; reflexivity|].
+      unfold is_wanted. rewrite Hwant by exact Hne. exact H1.
+  - intros e He. apply Hin'. destruct (Nat.eq_dec e d) as [->|Hne]; [left; reflexivity|].
+    right. apply I3. rewrite <- Hwant by exact Hne. exact He.
+  - intros e He Hae. destruct (Nat.eq_dec e d) as [->|Hne]; [rewrite Hwd in He; discriminate|].
+    rewrite Hwant in He by exact Hne. destruct (I4 e He Hae) as [H|[H|H]].
+    + left. apply Hin'. right. exact H.
+    + congruence.
+    + right. exact H.
+  - intros e He Hae. destruct (Nat.eq_dec e d) as [->|Hne]; [rewrite Hwd in He; discriminate|].
+    rewrite Hwant in He by exact Hne. destruct (I5 e He Hae) as [H|H]; [congruence|exact H].
+  - intros x Hx Hs. destruct (Nat.eq_dec x d) as [->|Hne]; [exact Hwd|].
+    rewrite Hwant by exact Hne. apply I6; [right; exact Hx|].
+    apply Hin' in Hs. destruct Hs as [Hs|Hs]; [congruence|exact Hs].
+  - intros e He. destruct (Nat.eq_dec e d) as [->|Hne].
+    + change (p_oready p d = true) in He. rewrite (I7 d He) in Hw. discriminate.
+    + rewrite Hwant by exact Hne. apply I7. exact He.
+  - intros e He. apply I8. exact He.
+  - intros e i He Hi Ho.
+    assert (He' : p_want p e <> None).
+    { destruct (Nat.eq_dec e d) as [->|Hne]; [congruence|]. rewrite <- Hwant by exact Hne. exact He. }
+    pose proof (I9 e i He' Hi Ho) as H.
+    destruct (Nat.eq_dec i d) as [->|Hne]; [rewrite Hwd; discriminate|]. rewrite Hwant by exact Hne. exact H.
+  - intros e He. apply I10. destruct (Nat.eq_dec e d) as [->|Hne]; [congruence|].
+    rewrite <- Hwant by exact Hne. exact He.
+  - intros q Hq. unfold p'. psimpl. destruct (I11 q Hq) as [H1 H2]. split; [|exact H2].
+    destruct to_ready; [|exact H1]. rewrite cnt_cons.
+    destruct (Nat.eqb_spec (pool g d) q) as [E|E]; [rewrite E in Hdep; lia|exact H1].
+  - intros q Hq Hdq Hdl. unfold p' in *. psimpl. apply I12; [exact I|exact Hdq|].
+    destruct to_ready; [exact Hdl|]. unfold delayed_of in *. cbn [filter] in Hdl.
+    destruct (Nat.eqb_spec (pool g d) q) as [E|E]; [congruence|exact Hdl].
+  - intros e He. unfold p' in He. psimpl. destruct to_ready; [apply I13; exact He|].
+    destruct He as [<-|He]; [exact Hdep|apply I13; exact He].
+  - unfold p'. psimpl. rewrite I14. symmetry. apply is_wanted_upd_keep.
+    unfold is_wanted. rewrite upd_same, Hw. reflexivity.
+  - exact I15.
+Qed.
+
+(* ---- pure update 2: moving edges between ready_, the active set and the failed set ---- *)
+Lemma pinv_reshape (Q Q' : nat -> Prop) X A F A' F' R' u t p :
+  pinv Q X A F p ->
+  Permutation (R' ++ p_delayed p ++ A' ++ F') (sched p A F) ->
+  (forall q, 0 < depth g q -> u q = cnt g q R' + cnt g q A' /\ u q <= depth g q) ->
+  (forall q, Q' q -> 0 < depth g q -> delayed_of g q (p_delayed p) <> [] -> u q = depth g q) ->
+  t = tok A' ->
+  pinv Q' X A' F' (mkPlan (p_want p) R' (p_delayed p) u (p_wanted p) (p_commands p) (p_oready p) t).
+Proof.
+  intros [I1 I2 I3 I4 I5 I6 I7 I8 I9 I10 I11 I12 I13 I14 I15] Hperm Hu Hfull Ht.
+  set (p' := mkPlan _ _ _ _ _ _ _ _).
+  assert (Hperm' : Permutation (sched p' A' F') (sched p A F)) by exact Hperm.
+  assert (Hair : forall e, all_inputs_ready g p' e = all_inputs_ready g p e) by reflexivity.
+  constructor; try assumption.
+  - apply (Permutation_NoDup (Permutation_sym Hperm')). exact I1.
+  - intros e He. apply I2. apply (Permutation_in _ Hperm'). exact He.
+  - intros e He. apply (Permutation_in _ (Permutation_sym Hperm')). apply I3. exact He.
+  - intros e He Ha. destruct (I4 e He Ha) as [H|H]; [left|right; exact H].
+    apply (Permutation_in _ (Permutation_sym Hperm')). exact H.
+  - intros x Hx Hs. apply I6; [exact Hx|]. apply (Permutation_in _ Hperm'). exact Hs.
+Qed.
+
+(* ---- pure update 3: an edge is done: erased from want_, outputs_ready_ set ---- *)
+Lemma pinv_done_pure (Q' : nat -> Prop) Xo X A A' F p e w u n t :
+  pinv QT Xo A F p -> p_want p e = Some w -> all_inputs_ready g p e = true ->
+  (forall x, In x Xo -> x = e \/ In x X) -> (forall x, In x X -> In x Xo) ->
+  NoDup (p_ready p ++ p_delayed p ++ A' ++ F) ->
+  (forall x, In x (p_ready p ++ p_delayed p ++ A' ++ F) <-> In x (sched p A F) /\ x <> e) ->
+  (forall q, 0 < depth g q -> u q = cnt g q (p_ready p) + cnt g q A' /\ u q <= depth g q) ->
+  (forall q, Q' q -> 0 < depth g q -> delayed_of g q (p_delayed p) <> [] -> u q = depth g q) ->
+  n = count_if (is_wanted (upd (p_want p) e None)) (all_edges g) ->
+  t = tok A' ->
+  pinv Q' (cons_of g e ++ X) A' F
+       (mkPlan (upd (p_want p) e None) (p_ready p) (p_delayed p) u n (p_commands p)
+               (upd (p_oready p) e true) t).
+Proof.
+  intros [I1 I2 I3 I4 I5 I6 I7 I8 I9 I10 I11 I12 I13 I14 I15] Hw Ha HX HX' Hnd Hin Hu Hfull Hn Ht.
+  set (p' := mkPlan _ _ _ _ _ _ _ _).
+  assert (Hoe : p_oready p e = false).
+  { destruct (p_oready p e) eqn:E; [|reflexivity]. rewrite (I7 e E) in Hw. discriminate. }
+  assert (Hwant : forall x, x <> e -> p_want p' x = p_want p x).
+  { intros x Hx. unfold p'. psimpl. apply upd_other. exact Hx. }
+  assert (Hwe : p_want p' e = None) by (unfold p'; psimpl; apply upd_same).
+  assert (Hor : forall x, p_oready p' x = true <-> x = e \/ p_oready p x = true).
+  { intros x. unfold p'. psimpl. unfold upd. destruct (Nat.eqb_spec x e) as [->|Hne]; [tauto|].
+    split; [tauto|]. intros [H|H]; [congruence|exact H]. }
+  assert (Hmono : forall x, all_inputs_ready g p x = true -> all_inputs_ready g p' x = true).
+  { intros x. apply air_mono. intros y Hy. apply Hor. right. exact Hy. }
+  assert (Hnew : forall x, all_inputs_ready g p' x = true -> all_inputs_ready g p x = false ->
+                           In x (cons_of g e)).
+  { intros x H1 H2. destruct (air_false g p x H2) as [i [Hi Hio]].
+    pose proof (air_in g p' x i H1 Hi) as H3. apply Hor in H3. destruct H3 as [->|H3]; [|congruence].
+    apply (wg_ins_cons g rank Hwf). exact Hi. }
+  assert (Hs' : forall x, In x (sched p' A' F) <-> In x (sched p A F) /\ x <> e) by exact Hin.
+  constructor.
+  - exact Hnd.
+  - intros x Hx. apply Hs' in Hx. destruct Hx as [Hx Hne]. destruct (I2 x Hx) as [H1 H2].
+    split; [unfold is_wanted; rewrite Hwant by exact Hne; exact H1|apply Hmono; exact H2].
+  - intros x Hx. destruct (Nat.eq_dec x e) as [->|Hne]; [congruence|]. rewrite Hwant in Hx by exact Hne.
+    apply Hs'. split; [apply I3; exact Hx|exact Hne].
+  - intros x Hx Hax. destruct (Nat.eq_dec x e) as [->|Hne]; [congruence|]. rewrite Hwant in Hx by exact Hne.
+    destruct (all_inputs_ready g p x) eqn:E.
+    + destruct (I4 x Hx E) as [H|H].
+      * left. apply Hs'. split; assumption.
+      * destruct (HX x H) as [H'|H']; [congruence|]. right. apply in_or_app. right. exact H'.
+    + right. apply in_or_app. left. apply Hnew; assumption.
+  - intros x Hx Hax. destruct (Nat.eq_dec x e) as [->|Hne]; [congruence|]. rewrite Hwant in Hx by exact Hne.
+    destruct (all_inputs_ready g p x) eqn:E.
+    + destruct (HX x (I5 x Hx E)) as [H'|H']; [congruence|]. apply in_or_app. right. exact H'.
+    + apply in_or_app. left. apply Hnew; assumption.
+  - intros x Hx Hsx. apply Hs' in Hsx. destruct Hsx as [Hsx Hne]. rewrite Hwant by exact Hne.
+    apply in_app_or in Hx. destruct Hx as [Hx|Hx].
+    + exfalso. apply (wg_cons_ins g rank Hwf) in Hx. destruct (I2 x Hsx) as [_ H2].
+      rewrite (air_in g p x e H2 Hx) in Hoe. discriminate.
+    + apply I6; [apply HX'; exact Hx|exact Hsx].
+  - intros x Hx. apply Hor in Hx. destruct Hx as [->|Hx]; [exact Hwe|].
+    destruct (Nat.eq_dec x e) as [->|Hne]; [exact Hwe|]. rewrite Hwant by exact Hne. apply I7. exact Hx.
+  - intros x Hx. apply Hor in Hx. destruct Hx as [->|Hx]; apply Hmono; [exact Ha|apply I8; exact Hx].
+  - intros x i Hx Hi Ho.
+    assert (Hne : x <> e) by (intros ->; congruence). rewrite Hwant in Hx by exact Hne.
+    assert (Hie : i <> e) by (intros ->; rewrite (proj2 (Hor e) (or_introl eq_refl)) in Ho; discriminate).
+    rewrite Hwant by exact Hie. apply (I9 x i Hx Hi).
+    destruct (p_oready p i) eqn:E; [|reflexivity]. rewrite (proj2 (Hor i) (or_intror E)) in Ho. discriminate.
+  - intros x Hx. assert (Hne : x <> e) by (intros ->; congruence). rewrite Hwant in Hx by exact Hne.
+    apply I10. exact Hx.
+  - exact Hu.
+  - exact Hfull.
+  - exact I13.
+  - exact Hn.
+  - exact Ht.
+Qed.
+
+
+(* ------------------------------------------------------------------ Plan::ScheduleWork *)
+Lemma QT_weaken (Q : nat -> Prop) X A F p :
+  (forall q, 0 < depth g q -> Q q) -> pinv Q X A F p -> pinv QT X A F p.
+Proof.
+  intros HQ H. eapply pinv_weaken; [| |left; eassumption|exact H].
+  - intros q _ Hq. apply HQ. exact Hq.
+  - intros x Hx. exact Hx.
+Qed.
+
+Lemma schedule_work_pinv X A F p prio d p' :
+  pinv QT (d :: X) A F p -> is_wanted (p_want p) d = true -> all_inputs_ready g p d = true ->
+  schedule_work g prio d p = Ok p' -> pinv QT X A F p'.
+Proof.
+  intros HI Hw Ha Hs. unfold schedule_work in Hs. unfold is_wanted in Hw.
+  destruct (p_want p d) as [[| |]|] eqn:Ewd; try discriminate.
+  - destruct (Nat.eqb_spec (depth g (pool g d)) 0) as [Hz|Hnz]; injection Hs as <-.
+    + pose proof (pinv_schedule_pure X A F p d true HI Ewd Ha Hz) as H.
+      refine (QT_weaken _ _ _ _ _ _ H). intros q Hq Heq. rewrite Heq in Hq. lia.
+    + assert (Hpos : 0 < depth g (pool g d)) by lia.
+      pose proof (pinv_schedule_pure X A F p d false HI Ewd Ha Hpos) as H.
+      apply (retrieve_pinv _ _ _ _ _ prio (pool g d)) in H.
+      refine (QT_weaken _ _ _ _ _ _ H). intros q _.
+      destruct (Nat.eq_dec q (pool g d)); [right|left]; assumption.
+  - injection Hs as <-. apply (pinv_drop _ d); [exact HI| |]; intros H; congruence.
+Qed.
+
+(* ------------------------------------------------------------------ Plan::EdgeFinished *)
+Definition visit (fuel : nat) (prio : list nat) : nat -> plan -> res plan :=
+  fun d pp =>
+    match p_want pp d with
+    | None => Ok pp
+    | Some wd =>
+      if all_inputs_ready g pp d then
+        if want_eqb wd WNothing
+        then edge_finished fuel g cfg prio d true false pp
+        else schedule_work g prio d pp
+      else Ok pp
+    end.
+
+(* the recursive call: an edge that is in want_ with kWantNothing *)
+Lemma ef_nothing_eq fuel prio d p : p_want p d = Some WNothing ->
+  edge_finished (S fuel) g cfg prio d true false p =
+  fold_res (visit fuel prio) (cons_of g d)
+    (retrieve g prio (pool g d)
+       (mkPlan (upd (p_want p) d None) (p_ready p) (p_delayed p) (p_use p) (p_wanted p)
+               (p_commands p) (upd (p_oready p) d true) (p_tokens p))).
+Proof.
+  intros Hw. cbn [edge_finished]. rewrite Hw. cbn [want_eqb negb andb].
+  assert (Et : release_token cfg false (retrieve g prio (pool g d) p) = Some (retrieve g prio (pool g d) p)).
+  { unfold release_token. destruct (c_jobserver cfg); reflexivity. }
+  rewrite Et. cbn [negb].
+  change (mkPlan (upd (p_want p) d None) (p_ready p) (p_delayed p) (p_use p) (p_wanted p)
+                 (p_commands p) (upd (p_oready p) d true) (p_tokens p))
+    with (frame p (upd (p_want p) d None) (p_wanted p) (p_commands p) (upd (p_oready p) d true) (p_tokens p)).
+  rewrite retrieve_frame. unfold visit.
+  unfold set_oready, set_want, set_wanted. psimpl.
+  rewrite retrieve_want, retrieve_oready, retrieve_wanted, retrieve_commands, retrieve_tokens.
+  reflexivity.
+Qed.
+
+Definition rel_use (p : plan) (q : nat) : option (nat -> nat) :=
+  if negb (Nat.eqb (depth g q) 0)
+  then (match p_use p q with O => None | S u => Some (upd (p_use p) q u) end)
+  else Some (p_use p).
+
+Definition rel_tok (p : plan) : option nat :=
+  match c_jobserver cfg with
+  | None => Some (p_tokens p)
+  | Some _ => (match p_tokens p with O => None | S t => Some t end)
+  end.
+
+(* the top-level call: a directly wanted edge that went through FindWork *)
+Lemma ef_top_eq fuel prio e succ p w : p_want p e = Some w -> w <> WNothing ->
+  edge_finished (S fuel) g cfg prio e succ true p =
+  match rel_use p (pool g e) with
+  | None => Forbidden
+  | Some u =>
+    match rel_tok p with
+    | None => Forbidden
+    | Some t =>
+      if negb succ
+      then Ok (retrieve g prio (pool g e)
+                 (mkPlan (p_want p) (p_ready p) (p_delayed p) u (p_wanted p) (p_commands p)
+                         (p_oready p) t))
+      else match p_wanted p with
+           | O => Forbidden
+           | S n =>
+             fold_res (visit fuel prio) (cons_of g e)
+               (retrieve g prio (pool g e)
+                  (mkPlan (upd (p_want p) e None) (p_ready p) (p_delayed p) u n (p_commands p)
+                          (upd (p_oready p) e true) t))
+           end
+    end
+  end.
+Proof.
+  intros Hw Hn. cbn [edge_finished]. rewrite Hw.
+  assert (Edw : negb (want_eqb w WNothing) = true) by (destruct w; [congruence|reflexivity|reflexivity]).
+  rewrite Edw. cbn [andb]. unfold rel_use.
+  set (q := pool g e).
+  assert (Hmain : forall u,
+    match release_token cfg true (retrieve g prio q (set_use p u)) with
+    | None => Forbidden
+    | Some p3 =>
+      if negb succ then Ok p3
+      else match (match p_wanted p3 with O => None | S n => Some n end) with
+           | None => Forbidden
+           | Some n =>
+             fold_res (visit fuel prio) (cons_of g e)
+               (set_oready (set_want (set_wanted p3 n) (upd (p_want p3) e None)) (upd (p_oready p3) e true))
+           end
+    end =
+    match rel_tok p with
+    | None => Forbidden
+    | Some t =>
+      if negb succ
+      then Ok (retrieve g prio q (mkPlan (p_want p) (p_ready p) (p_delayed p) u (p_wanted p) (p_commands p) (p_oready p) t))
+      else match p_wanted p with
+           | O => Forbidden
+           | S n =>
+             fold_res (visit fuel prio) (cons_of g e)
+               (retrieve g prio q (mkPlan (upd (p_want p) e None) (p_ready p) (p_delayed p) u n (p_commands p) (upd (p_oready p) e true) t))
+           end
+    end).
+  { intros u. unfold release_token, rel_tok.
+    assert (Hfr : forall w' n' o' t',
+      retrieve g prio q (mkPlan w' (p_ready p) (p_delayed p) u n' (p_commands p) o' t') =
+      frame (retrieve g prio q (set_use p u)) w' n' (p_commands p) o' t').
+    { intros w' n' o' t'. rewrite <- retrieve_frame. reflexivity. }
+    destruct (c_jobserver cfg) as [nj|].
+    - rewrite retrieve_tokens. change (p_tokens (set_use p u)) with (p_tokens p).
+      destruct (p_tokens p) as [|t]; [reflexivity|].
+      destruct (negb succ).
+      + rewrite Hfr. unfold set_tokens, frame.
+        rewrite retrieve_want, retrieve_oready, retrieve_wanted, retrieve_commands. reflexivity.
+      + unfold set_tokens at 1. psimpl. rewrite retrieve_wanted. change (p_wanted (set_use p u)) with (p_wanted p).
+        destruct (p_wanted p) as [|n]; [reflexivity|]. rewrite Hfr.
+        unfold set_oready, set_want, set_wanted, set_tokens, frame. psimpl.
+        rewrite retrieve_want, retrieve_oready, retrieve_commands. reflexivity.
+    - destruct (negb succ).
+      + rewrite Hfr. f_equal. exact (retrieve_as_frame prio q (set_use p u)).
+      + rewrite retrieve_wanted. change (p_wanted (set_use p u)) with (p_wanted p).
+        destruct (p_wanted p) as [|n]; [reflexivity|]. rewrite Hfr.
+        unfold set_oready, set_want, set_wanted, frame. psimpl.
+        rewrite retrieve_want, retrieve_oready, retrieve_commands, retrieve_tokens. reflexivity. }
+  destruct (negb (Nat.eqb (depth g q) 0)).
+  - destruct (p_use p q) as [|u0]; [reflexivity|]. apply Hmain.
+  - specialize (Hmain (p_use p)). replace (set_use p (p_use p)) with p in Hmain by (destruct p; reflexivity).
+    exact Hmain.
+Qed.
+
+Definition ef_rec_stmt (fuel : nat) : Prop :=
+  forall prio d X A F p p',
+    pinv QT (d :: X) A F p -> p_want p d = Some WNothing -> all_inputs_ready g p d = true ->
+    edge_finished fuel g cfg prio d true false p = Ok p' -> pinv QT X A F p'.
+
+Definition fold_stmt (fuel : nat) : Prop :=
+  forall prio l X A F p p',
+    pinv QT (l ++ X) A F p -> fold_res (visit fuel prio) l p = Ok p' -> pinv QT X A F p'.
+
+Lemma fold_of_rec fuel : ef_rec_stmt fuel -> fold_stmt fuel.
+Proof.
+  intros Hrec prio l. induction l as [|d l IH]; intros X A F p p' HI Hf.
+  - cbn [fold_res] in Hf. injection Hf as <-. exact HI.
+  - cbn [fold_res] in Hf. destruct (visit fuel prio d p) as [p1| |] eqn:Ev; try discriminate.
+    apply (IH X A F p1 p'); [|exact Hf]. clear Hf IH.
+    cbn [app] in HI. unfold visit in Ev.
+    destruct (p_want p d) as [wd|] eqn:Ewd.
+    + destruct (all_inputs_ready g p d) eqn:Ea.
+      * destruct wd; cbn [want_eqb] in Ev.
+        -- apply (Hrec prio d (l ++ X) A F p p1 HI Ewd Ea Ev).
+        -- apply (schedule_work_pinv (l ++ X) A F p prio d p1 HI); [unfold is_wanted; rewrite Ewd; reflexivity|exact Ea|exact Ev].
+        -- apply (schedule_work_pinv (l ++ X) A F p prio d p1 HI); [unfold is_wanted; rewrite Ewd; reflexivity|exact Ea|exact Ev].
+      * injection Ev as <-. apply (pinv_drop _ d); [exact HI| |]; intros _ H; congruence.
+    + injection Ev as <-. apply (pinv_drop _ d); [exact HI| |]; intros H; congruence.
+Qed.
+
+Lemma rec_of_fold fuel : fold_stmt fuel -> ef_rec_stmt (S fuel).
+Proof.
+  intros Hfold prio d X A F p p' HI Hw Ha Hef.
+  rewrite (ef_nothing_eq fuel prio d p Hw) in Hef.
+  refine (Hfold prio (cons_of g d) X A F _ p' _ Hef).
+  apply (QT_weaken (fun r => QT r \/ r = pool g d)); [intros q _; left; exact I|].
+  apply retrieve_pinv.
+  pose proof HI as [I1 I2 I3 I4 I5 I6 I7 I8 I9 I10 I11 I12 I13 I14 I15].
+  assert (Hns : ~ In d (sched p A F)).
+  { intros Hin. destruct (I2 d Hin) as [H _]. unfold is_wanted in H. rewrite Hw in H. discriminate. }
+  apply (pinv_done_pure QT (d :: X) X A A F p d WNothing); try assumption.
+  - intros x [<-|Hx]; [left; reflexivity|right; exact Hx].
+  - intros x Hx. right. exact Hx.
+  - intros x. split; [intros Hx; split; [exact Hx|intros ->; exact (Hns Hx)]|tauto].
+  - rewrite I14. symmetry. apply is_wanted_upd_keep. unfold is_wanted. rewrite upd_same, Hw. reflexivity.
+Qed.
+
+Lemma ef_rec_all fuel : ef_rec_stmt fuel /\ fold_stmt fuel.
+Proof.
+  induction fuel as [|fuel [IH1 IH2]].
+  - assert (H0 : ef_rec_stmt 0) by (intros prio d X A F p p' _ _ _ H; discriminate H).
+    split; [exact H0|apply fold_of_rec; exact H0].
+  - pose proof (rec_of_fold fuel IH2) as H. split; [exact H|apply fold_of_rec; exact H].
+Qed.
+
+Lemma sched_split_A p A F e : NoDup A -> In e A ->
+  Permutation (sched p A F) (e :: p_ready p ++ p_delayed p ++ rem e A ++ F).
+Proof.
+  intros Hnd Hin. unfold sched.
+  rewrite (rem_perm e A Hnd Hin) at 1.
+  rewrite (Permutation_middle (p_ready p)). apply Permutation_app_head.
+  rewrite (Permutation_middle (p_delayed p)). apply Permutation_app_head. reflexivity.
+Qed.
+
+Lemma pinv_nodup_A Q X A F p : pinv Q X A F p -> NoDup A.
+Proof.
+  intros [I1 _ _ _ _ _ _ _ _ _ _ _ _ _ _]. unfold sched in I1.
+  apply NoDup_app_iff in I1. destruct I1 as [_ [I1 _]].
+  apply NoDup_app_iff in I1. destruct I1 as [_ [I1 _]].
+  apply NoDup_app_iff in I1. tauto.
+Qed.
+
+Lemma pinv_nodup_R Q X A F p : pinv Q X A F p -> NoDup (p_ready p).
+Proof.
+  intros [I1 _ _ _ _ _ _ _ _ _ _ _ _ _ _]. unfold sched in I1.
+  apply NoDup_app_iff in I1. tauto.
+Qed.
+
+Lemma in_sched_A p A F e : In e A -> In e (sched p A F).
+Proof. intros H. unfold sched. apply in_or_app. right. apply in_or_app. right. apply in_or_app. left. exact H. Qed.
+Lemma in_sched_R p A F e : In e (p_ready p) -> In e (sched p A F).
+Proof. intros H. unfold sched. apply in_or_app. left. exact H. Qed.
+Lemma in_sched_D p A F e : In e (p_delayed p) -> In e (sched p A F).
+Proof. intros H. unfold sched. apply in_or_app. right. apply in_or_app. left. exact H. Qed.
+Lemma in_sched_F p A F e : In e F -> In e (sched p A F).
+Proof. intros H. unfold sched. apply in_or_app. right. apply in_or_app. right. apply in_or_app. right. exact H. Qed.
+
+Lemma rel_use_spec p q u A : rel_use p q = Some u ->
+  (forall r, r <> q -> u r = p_use p r) /\
+  (0 < depth g q -> S (u q) = p_use p q) /\ (depth g q = 0 -> u = p_use p).
+Proof.
+  unfold rel_use. destruct (Nat.eqb_spec (depth g q) 0) as [Hz|Hnz]; cbn [negb].
+  - intros H. injection H as <-. repeat split; [lia|].
+  - destruct (p_use p q) as [|u0] eqn:E; [discriminate|]. intros H. injection H as <-.
+    split; [intros r Hr; apply upd_other; exact Hr|]. split; [intros _; rewrite upd_same; reflexivity|lia].
+Qed.
+
+Lemma rel_tok_spec p A e t : p_tokens p = tok A -> NoDup A -> In e A -> rel_tok p = Some t ->
+  t = tok (rem e A).
+Proof.
+  unfold rel_tok, tok. intros Ht Hnd Hin. rewrite (rem_length e A Hnd Hin) in Ht.
+  destruct (c_jobserver cfg).
+  - rewrite Ht. intros H. injection H as <-. reflexivity.
+  - intros H. injection H as <-. exact Ht.
+Qed.
+
+(* use after the pool release, for the active set without e *)
+Lemma use_after_release p A F e u :
+  pinv QT [] A F p -> In e A -> rel_use p (pool g e) = Some u ->
+  (forall q, 0 < depth g q -> u q = cnt g q (p_ready p) + cnt g q (rem e A) /\ u q <= depth g q) /\
+  (forall q, q <> pool g e -> 0 < depth g q -> delayed_of g q (p_delayed p) <> [] -> u q = depth g q).
+Proof.
+  intros HI Hin Hu. pose proof (pinv_nodup_A _ _ _ _ _ HI) as HndA.
+  destruct HI as [I1 I2 I3 I4 I5 I6 I7 I8 I9 I10 I11 I12 I13 I14 I15].
+  destruct (rel_use_spec p (pool g e) u A Hu) as [U1 [U2 U3]].
+  split.
+  - intros q Hq. destruct (I11 q Hq) as [H1 H2]. pose proof (cnt_rem g q e A HndA Hin) as Hc.
+    destruct (Nat.eq_dec q (pool g e)) as [->|Hne].
+    + rewrite Nat.eqb_refl in Hc. specialize (U2 Hq). lia.
+    + rewrite (U1 q Hne). destruct (Nat.eqb_spec (pool g e) q) as [E|E]; [congruence|]. lia.
+  - intros q Hne Hq Hd. rewrite (U1 q Hne). apply I12; [exact I|exact Hq|exact Hd].
+Qed.
+
+Lemma ef_top_success fuel prio e A F p p' :
+  pinv QT [] A F p -> In e A ->
+  edge_finished fuel g cfg prio e true true p = Ok p' -> pinv QT [] (rem e A) F p'.
+Proof.
+  intros HI Hin Hef. destruct fuel as [|fuel]; [discriminate Hef|].
+  pose proof (pinv_nodup_A _ _ _ _ _ HI) as HndA.
+  pose proof HI as [I1 I2 I3 I4 I5 I6 I7 I8 I9 I10 I11 I12 I13 I14 I15].
+  destruct (I2 e (in_sched_A p A F e Hin)) as [Hw Ha]. unfold is_wanted in Hw.
+  destruct (p_want p e) as [w|] eqn:Ew; [|discriminate].
+  assert (Hwn : w <> WNothing) by (intros ->; discriminate).
+  rewrite (ef_top_eq fuel prio e true p w Ew Hwn) in Hef.
+  destruct (rel_use p (pool g e)) as [u|] eqn:Eu; [|discriminate].
+  destruct (rel_tok p) as [t|] eqn:Et; [|discriminate]. cbn [negb] in Hef.
+  destruct (p_wanted p) as [|n] eqn:En; [discriminate|].
+  destruct (use_after_release p A F e u HI Hin Eu) as [Hu Hfull].
+  pose proof (sched_split_A p A F e HndA Hin) as Hperm.
+  assert (Hnd' : NoDup (e :: p_ready p ++ p_delayed p ++ rem e A ++ F)) by (apply (Permutation_NoDup Hperm); exact I1).
+  inversion Hnd' as [|e' l' Hne' Hnd'']; subst.
+  destruct (ef_rec_all fuel) as [_ Hfold].
+  refine (Hfold prio (cons_of g e) [] (rem e A) F _ p' _ Hef).
+  apply (QT_weaken (fun r => r <> pool g e \/ r = pool g e)).
+  { intros q _. destruct (Nat.eq_dec q (pool g e)); [right|left]; assumption. }
+  apply retrieve_pinv.
+  replace (cons_of g e) with (cons_of g e ++ []) at 1 by apply app_nil_r.
+  rewrite app_nil_r.
+  replace (cons_of g e) with (cons_of g e ++ []) by apply app_nil_r.
+  apply (pinv_done_pure (fun r => r <> pool g e) [] [] A (rem e A) F p e w); try assumption.
+  - intros x [].
+  - intros x [].
+  - intros x. split.
+    + intros Hx. split; [apply (Permutation_in _ (Permutation_sym Hperm)); right; exact Hx|].
+      intros ->. exact (Hne' Hx).
+    + intros [Hx Hne]. apply (Permutation_in _ Hperm) in Hx. destruct Hx as [Hx|Hx]; [congruence|exact Hx].
+  - intros q Hq Hd Hdl. apply Hfull; assumption.
+  - assert (Hlt : e < n_edges g) by (apply I10; congruence).
+    pose proof (count_if_flip (p_want p) e None (all_edges g) all_edges_nodup (all_edges_in e Hlt)) as Hc.
+    unfold is_wanted in Hc at 1 2. rewrite Ew, upd_same in Hc.
+    assert (Hw' : match w with WNothing => false | _ => true end = true) by (destruct w; [congruence|reflexivity|reflexivity]).
+    specialize (Hc Hw' eq_refl). rewrite <- I14, En in Hc. injection Hc as Hc. exact Hc.
+  - apply (rel_tok_spec p A e t I15 HndA Hin Et).
+Qed.
+
+Lemma ef_top_failure fuel prio e A F p p' :
+  pinv QT [] A F p -> In e A ->
+  edge_finished fuel g cfg prio e false true p = Ok p' -> pinv QT [] (rem e A) (e :: F) p'.
+Proof.
+  intros HI Hin Hef. destruct fuel as [|fuel]; [discriminate Hef|].
+  pose proof (pinv_nodup_A _ _ _ _ _ HI) as HndA.
+  pose proof HI as [I1 I2 I3 I4 I5 I6 I7 I8 I9 I10 I11 I12 I13 I14 I15].
+  destruct (I2 e (in_sched_A p A F e Hin)) as [Hw Ha]. unfold is_wanted in Hw.
+  destruct (p_want p e) as [w|] eqn:Ew; [|discriminate].
+  assert (Hwn : w <> WNothing) by (intros ->; discriminate).
+  rewrite (ef_top_eq fuel prio e false p w Ew Hwn) in Hef.
+  destruct (rel_use p (pool g e)) as [u|] eqn:Eu; [|discriminate].
+  destruct (rel_tok p) as [t|] eqn:Et; [|discriminate]. cbn [negb] in Hef. injection Hef as <-.
+  destruct (use_after_release p A F e u HI Hin Eu) as [Hu Hfull].
+  apply (QT_weaken (fun r => r <> pool g e \/ r = pool g e)).
+  { intros q _. destruct (Nat.eq_dec q (pool g e)); [right|left]; assumption. }
+  apply retrieve_pinv.
+  apply (pinv_reshape QT (fun r => r <> pool g e) [] A F (rem e A) (e :: F) (p_ready p) u t p HI).
+  - rewrite (sched_split_A p A F e HndA Hin).
+    rewrite (Permutation_middle (p_ready p)). apply Permutation_app_head.
+    rewrite (Permutation_middle (p_delayed p)). apply Permutation_app_head.
+    symmetry. apply Permutation_middle.
+  - exact Hu.
+  - intros q Hq Hd Hdl. apply Hfull; assumption.
+  - apply (rel_tok_spec p A e t I15 HndA Hin Et).
+Qed.
